@@ -278,4 +278,38 @@ theorem time_all3 (d : Deb) (c : TimeCfg) (nO nH nF tO tH tF : Int) (h : timeChe
   rw [h]
   by_cases a : nO = tO <;> by_cases b : nH = tH <;> by_cases e : nF = tF <;> simp [a, b, e]
 
+/-- **Partial time information.**  A time array that *is given* with the wrong length is a `ValueError` in every
+    configuration that consumes it — no matter which of the other time arrays are omitted (omitted ones are inferred with the
+    right length; inference never replaces a given array). -/
+theorem time_partial_mismatch (d : Deb) (c : TimeCfg) (nO nH nF : Int) (tO tH tF : Option Int)
+    (h : ((timeChecked d c).1 = true ∧ ∃ x, tO = some x ∧ x ≠ nO) ∨ ((timeChecked d c).2.1 = true ∧ ∃ x, tH = some x ∧ x ≠ nH) ∨
+         ((timeChecked d c).2.2 = true ∧ ∃ x, tF = some x ∧ x ≠ nF)) :
+    timeOutcomeP d c nO nH nF tO tH tF = .error "ValueError" := by
+  unfold timeOutcomeP inferTime
+  apply time_mismatch
+  rcases h with ⟨h1, x, rfl, hx⟩ | ⟨h1, x, rfl, hx⟩ | ⟨h1, x, rfl, hx⟩
+  · exact Or.inl ⟨h1, by simpa using Ne.symm hx⟩
+  · exact Or.inr (Or.inl ⟨h1, by simpa using Ne.symm hx⟩)
+  · exact Or.inr (Or.inr ⟨h1, by simpa using Ne.symm hx⟩)
+
+example : (timeChecked .linearScaling ⟨true, false⟩).2.1 = true ∧ ∃ x : Int, (some 49 : Option Int) = some x ∧ x ≠ 50 := by
+  refine ⟨by decide, 49, rfl, by decide⟩
+
+/-- omitted time arrays never cause a rejection: if every *given* array that is consumed has the right length, the call passes -/
+theorem time_partial_ok (d : Deb) (c : TimeCfg) (nO nH nF : Int) (tO tH tF : Option Int)
+    (h1 : (timeChecked d c).1 = true → ∀ x, tO = some x → x = nO) (h2 : (timeChecked d c).2.1 = true → ∀ x, tH = some x → x = nH)
+    (h3 : (timeChecked d c).2.2 = true → ∀ x, tF = some x → x = nF) :
+    timeOutcomeP d c nO nH nF tO tH tF = .ok () := by
+  unfold timeOutcomeP inferTime
+  apply time_ok
+  · intro hc; cases tO with
+    | none => rfl
+    | some x => exact (h1 hc x rfl).symm
+  · intro hc; cases tH with
+    | none => rfl
+    | some x => exact (h2 hc x rfl).symm
+  · intro hc; cases tF with
+    | none => rfl
+    | some x => exact (h3 hc x rfl).symm
+
 end Props.C14
